@@ -101,10 +101,11 @@ ASSUMPTIONS = [
     "single-pixel first mask makes dclab raise NoValidContourFoundError, a "
     "BaseException: invalid input, not judged); dclab-split on tdms input is "
     "not exercised (the image fixtures hold truncated videos)",
-    "date/time strings: strict two-digit fields are well-formed; the lenient "
-    "forms strptime also accepts ('2024-3-5', '1:02:03', second 60) are not "
-    "generated; a malformed date/time or a single input must raise ValueError "
-    "and leave no file",
+    "date/time strings are generated in the strict shape (two-digit fields, "
+    "'.digits' fractions, year >= 1900) where the model of strptime/float is "
+    "exact; other spellings Python accepts ('2024-3-5', '1:02:03', '.5e1') "
+    "are not generated; for a malformed date/time or a single input only 'a "
+    "refusal leaves no file' is judged",
     "fractions of a second that are no multiples of 1/8 s, and inputs with "
     "different trace channels, are judged by the oracle only (no model run)",
 ]
@@ -1698,7 +1699,7 @@ HEADER = ("From Coq Require Import ZArith List Bool.\nImport ListNotations.\n"
 
 def run(run):
     nj, ns, njs, npy = (700, 400, 250, 3000) if run.thorough else \
-        (64, 40, 20, 300)
+        (54, 34, 18, 300)
     cases = load_corpus()
     run.count("corpus", len(cases))
     cases += [gen_join_case(run.rng, run.thorough) for _ in range(nj)]
